@@ -259,6 +259,10 @@ fn plant(b: &Base, class: &'static str, rng: &mut Rng) -> Option<Planted> {
                 "/** doc\n *",
                 "/* a **",
             ]);
+            // (the last line may lack its terminator and may end in a line comment)
+            if !text.ends_with('\n') {
+                text.push('\n');
+            }
             text.push_str(tail);
             case.world.put(&target, &text);
             detail = format!("{tail:?}");
@@ -382,6 +386,9 @@ fn plant(b: &Base, class: &'static str, rng: &mut Rng) -> Option<Planted> {
             let text_main = format!("component main = {} ( {} ) ( {} ) ;", t.name, params.join(" , "), args.join(" , "));
             let w = render_world(&project, &b.style, b.style_seed);
             let mut text = w.get_text(&target)?.to_string();
+            if !text.ends_with('\n') {
+                text.push('\n');
+            }
             text.push_str(&text_main);
             text.push('\n');
             let mut world = w.clone();
@@ -639,6 +646,7 @@ struct Res {
     fps: Vec<u64>,
     sim_ns: i64,
     sarif_faults_fired: usize,
+    stdout_dead_runs: usize,
 }
 
 fn judge_planted(twin: &Outcome, twin_world: &World, pl: &Planted, o: &Outcome) -> Option<(String, String)> {
@@ -703,7 +711,7 @@ fn multiset_with_pos(out: &crate::outparse::Stdout, world: &World) -> Vec<NF> {
 }
 
 fn one(runner: &Runner, seed: u64, i: usize, per_project: usize, sweep_class: Option<&'static str>) -> Res {
-    let mut res = Res { runs: 0, planted: vec![], violations: vec![], skipped_crash: 0, harness_err: None, fps: vec![], sim_ns: 0, sarif_faults_fired: 0 };
+    let mut res = Res { runs: 0, planted: vec![], violations: vec![], skipped_crash: 0, harness_err: None, fps: vec![], sim_ns: 0, sarif_faults_fired: 0, stdout_dead_runs: 0 };
     let mut b = build_base(seed, i);
     let twin = match runner.run(&b.case) {
         Ok(o) => o,
@@ -762,6 +770,12 @@ fn one(runner: &Runner, seed: u64, i: usize, per_project: usize, sweep_class: Op
                 }
             }
         }
+        // stdout itself may be dead (full disk, reader gone). Nothing can be displayed then,
+        // but the exit status is still there to say that the input was not analysed
+        let stdout_dead = r.chance(1, 12) && pl.case.plan.faults.is_empty();
+        if stdout_dead {
+            pl.case.plan.stdout_errno = *r.pick(&[libc::ENOSPC, libc::EIO, libc::EPIPE]);
+        }
         let o = match runner.run(&pl.case) {
             Ok(o) => o,
             Err(e) => {
@@ -771,6 +785,18 @@ fn one(runner: &Runner, seed: u64, i: usize, per_project: usize, sweep_class: Op
         };
         res.runs += 1;
         res.sim_ns += o.sim_ns();
+        if stdout_dead {
+            res.stdout_dead_runs += 1;
+            if matches!(o.exit, crate::procrun::Exit::Code(0)) {
+                res.violations.push((
+                    format!("silent:stdout-fails:{class}"),
+                    format!("exit status 0 with planted failure {class} {} while every write to stdout fails", pl.detail),
+                    json!({"kind": "C02", "class": class, "detail": pl.detail, "seed": seed, "index": i, "case": pl.case, "twin": b.case,
+                           "where_ok": pl.where_ok, "named": pl.named, "defs": pl.defs}),
+                ));
+            }
+            continue;
+        }
         if crashed(&o) {
             res.skipped_crash += 1;
             continue;
